@@ -548,6 +548,82 @@ fn raw(out: &mut Out, rng: &mut Rng, thorough: bool) {
 		}
 	}
 	out.raw(&format!("#STAT raw init/apply calls={} errors={}", n_calls, n_err));
+	// --- systematic chunk-boundary cases: sizes 1024k-1, 1024k, 1024k+1, unspent sets dense at the
+	// boundaries / only the last leaf / sparse, the (single looked-at) invalidated index at
+	// 1024j-1, 1024j, 1024j+1 for every chunk incl. the two after the last, at size-1, size, size+1
+	// and far beyond the size (pad_left then appends empty chunks past the output set)
+	let mut n_edge = 0u64;
+	let mut n_edge_err = 0u64;
+	let mut n_beyond = 0u64;
+	let sizes: Vec<u64> = if thorough {
+		vec![0, 1, 2, 1023, 1024, 1025, 2047, 2048, 2049, 3071, 3072, 3073, 4095, 4096, 4097, 5120]
+	} else {
+		vec![0, 1, 1023, 1024, 1025, 2047, 2048, 2049, 3072, 3073]
+	};
+	let mut call = |out: &mut Out, acc: &mut BitmapAccumulator, inval: Option<Vec<u64>>, idx: Vec<u64>, size: u64| {
+		let r = match catch(AssertUnwindSafe(|| match &inval {
+			None => acc.init(idx.clone(), size),
+			Some(iv) => acc.apply(iv.clone(), idx.clone(), size),
+		})) {
+			Ok(Ok(())) => acc_str(acc),
+			Ok(Err(_)) => {
+				n_edge_err += 1;
+				"err".to_string()
+			}
+			Err(_) => "panic".to_string(),
+		};
+		n_edge += 1;
+		match inval {
+			None => out.line(&format!("bitmap rawinit {} {}", nat_list(&idx), size), &r),
+			Some(iv) => out.line(&format!("bitmap rawapply {} {} {}", nat_list(&iv), nat_list(&idx), size), &r),
+		}
+	};
+	for &size in &sizes {
+		let near: Vec<u64> = (0..size).filter(|x| x % NBITS <= 1 || x % NBITS >= NBITS - 2).collect();
+		let last_only: Vec<u64> = if size > 0 { vec![size - 1] } else { vec![] };
+		let sparse: Vec<u64> = (0..size).step_by(97).collect();
+		for (si, u) in [near, last_only, sparse].iter().enumerate() {
+			let mut invals: Vec<u64> = vec![];
+			for j in 0..=(size / NBITS + 2) {
+				for d in [-1i64, 0, 1] {
+					let v = (j * NBITS) as i64 + d;
+					if v >= 0 {
+						invals.push(v as u64);
+					}
+				}
+			}
+			invals.extend([size.saturating_sub(1), size, size + 1, size + 1023, size + 1024, size + 1025, size + 5000]);
+			invals.sort_unstable();
+			invals.dedup();
+			for &iv in &invals {
+				if iv >= size {
+					n_beyond += 1;
+				}
+				out.raw("bitmap new 0");
+				let mut acc = BitmapAccumulator::new();
+				call(out, &mut acc, None, u.clone(), size);
+				// what the chain hands over: the unspent indices from the start of the invalidated chunk,
+				// here with some of them spent
+				let from = BitmapAccumulator::chunk_start_idx(iv);
+				let idx2: Vec<u64> = u.iter().cloned().filter(|x| *x >= from && rng.chance(7, 8)).collect();
+				call(out, &mut acc, Some(vec![iv]), idx2, size);
+				// then the output set grows / shrinks by one leaf across the boundary
+				let size2 = if si % 2 == 0 { size + 1 } else { size.saturating_sub(1) };
+				let iv2 = iv.min(size2.saturating_sub(1));
+				let from2 = BitmapAccumulator::chunk_start_idx(iv2);
+				let mut idx3: Vec<u64> = u.iter().cloned().filter(|x| *x >= from2 && *x < size2).collect();
+				if size2 > size {
+					idx3.push(size);
+				}
+				call(out, &mut acc, Some(vec![iv2]), idx3, size2);
+			}
+		}
+	}
+	drop(call);
+	out.raw(&format!(
+		"#STAT raw chunk-boundary init/apply calls={} errors={} with the invalidated index at or beyond the size={}",
+		n_edge, n_edge_err, n_beyond
+	));
 	// --- TxHashSetRoots::validate: a header committing to another bitmap root must be refused (version >= 3)
 	let mut n_tamper = 0u64;
 	for _ in 0..(if thorough { 600 } else { 120 }) {
@@ -741,6 +817,12 @@ fn observe(ext: &mut ExtensionPair<'_>, header: &BlockHeader, rng_flip: u64) -> 
 
 #[derive(Default)]
 struct XStats {
+	ro_rewinds: u64,
+	ro_same_card: u64,
+	ro_cross: u64,
+	ro_then_block: u64,
+	ro_then_restart: u64,
+	balanced_blocks: u64,
 	discarded: u64,
 	discarded_old_chunk: u64,
 	histories: u64,
@@ -1132,6 +1214,125 @@ impl XChain {
 		self.report(out, st, "bitmap reopen", obs);
 	}
 
+	/// A READ-ONLY rewind that is then discarded, the way `Chain::get_merkle_proof`,
+	/// `txhashset_read` and the segmenter use `txhashset::extending_readonly`: rewind `depth`
+	/// blocks inside the read-only extension, observe the rewound state there (accumulator,
+	/// committed = from-scratch root, leaf set = unspent set at the target), leave. Afterwards the
+	/// head state must be untouched: leaf set (element by element, not its cardinality), the
+	/// accumulator the TxHashSet holds, the committed root. Returns false when the history cannot
+	/// go on (an oracle failure was printed).
+	fn readonly_rewind(&mut self, out: &mut Out, st: &mut XStats, rng: &mut Rng, depth: usize) -> bool {
+		let target_h = self.headers.len() - 1 - depth;
+		let target = self.headers[target_h].clone();
+		let mut affected: Vec<u64> = vec![];
+		let mut restored: BTreeSet<u64> = BTreeSet::new();
+		let mut n_t = self.n;
+		for b in self.recs.iter().rev().take(depth) {
+			for s in &b.spent {
+				affected.push(pos1(*s));
+				restored.insert(*s);
+			}
+			affected.push(pmmr::insertion_to_pmmr_index(b.n_before));
+			n_t = b.n_before;
+		}
+		let mut unspent_t: BTreeSet<u64> = self.unspent.iter().cloned().filter(|x| *x < n_t).collect();
+		let restored: Vec<u64> = restored.into_iter().filter(|x| *x < n_t).collect();
+		for r in &restored {
+			unspent_t.insert(*r);
+		}
+		self.log.push(format!("read-only rewind depth={} to h={} n={} then discard", depth, target_h, n_t));
+		let flip = rng.next();
+		let inside = xerr(
+			txhashset::extending_readonly(&mut self.header_pmmr, self.txhs.as_mut().unwrap(), |ext, batch| {
+				ext.extension.rewind(&target, batch)?;
+				observe(ext, &target, flip)
+			}),
+			"extending_readonly/rewind",
+		);
+		st.ro_rewinds += 1;
+		if unspent_t.len() == self.unspent.len() {
+			st.ro_same_card += 1;
+		}
+		if n_t == 0 || (n_t - 1) / NBITS < (self.n - 1) / NBITS {
+			st.ro_cross += 1;
+		}
+		let exp: Vec<u64> = unspent_t.iter().cloned().collect();
+		if inside.leaf_set != exp {
+			out.raw(&format!(
+				"#ORACLE-FAIL C15 leaf set inside a read-only rewind is not the unspent set at the target (expected {} entries, got {}; first difference at {:?}) after [{}]",
+				exp.len(),
+				inside.leaf_set.len(),
+				exp.iter().zip(inside.leaf_set.iter()).find(|(a, b)| a != b),
+				self.log.join("; ")
+			));
+		}
+		out.line(
+			&format!("bitmap peekrewind {} {} {}", n_t, nat_list(&restored), nat_list(&affected)),
+			&inside.acc,
+		);
+		if inside.committed != inside.scratch {
+			out.raw(&format!(
+				"#ORACLE-FAIL C15 bitmap root inside a read-only rewind differs from the from-scratch root of the rewound unspent set: {} scratch {} after [{}]",
+				inside.committed,
+				inside.scratch,
+				self.log.join("; ")
+			));
+		}
+		for m in &inside.oracle_msgs {
+			out.raw(&format!("#ORACLE-FAIL C15 {} (inside a read-only rewind) after [{}]", m, self.log.join("; ")));
+		}
+		for (l, r) in &inside.merged_lines {
+			out.line(l, r);
+		}
+		// after the discard
+		let head = self.headers.last().unwrap().clone();
+		let flip = rng.next();
+		let obs = xerr(
+			txhashset::extending_readonly(&mut self.header_pmmr, self.txhs.as_mut().unwrap(), |ext, _batch| {
+				observe(ext, &head, flip)
+			}),
+			"extending_readonly",
+		);
+		let tracked: Vec<u64> = self.unspent.iter().cloned().collect();
+		if obs.leaf_set != tracked {
+			let only_real: Vec<u64> = obs.leaf_set.iter().cloned().filter(|x| !self.unspent.contains(x)).take(8).collect();
+			let real: BTreeSet<u64> = obs.leaf_set.iter().cloned().collect();
+			let only_exp: Vec<u64> = tracked.iter().cloned().filter(|x| !real.contains(x)).take(8).collect();
+			out.raw(&format!(
+				"#ORACLE-FAIL C15 a discarded read-only rewind changed the leaf set of the head state: {} entries before, {} after; now unspent but should not be {:?}; missing {:?}; committed bitmap root {} from-scratch root of the leaf set now {} after [{}]",
+				tracked.len(),
+				obs.leaf_set.len(),
+				only_real,
+				only_exp,
+				obs.committed,
+				obs.scratch,
+				self.log.join("; ")
+			));
+			return false;
+		}
+		self.report(out, st, "bitmap reopen", obs);
+		true
+	}
+
+	/// a block with as many spends as outputs (the leaf set keeps its cardinality)
+	fn balanced_block(&mut self, out: &mut Out, st: &mut XStats, rng: &mut Rng) {
+		let cands: Vec<u64> = self.unspent.iter().cloned().filter(|x| *x + 1 < self.n).collect();
+		if cands.is_empty() {
+			return;
+		}
+		let k = rng.range(1, 4).min(cands.len() as u64);
+		let mut spent: Vec<u64> = vec![];
+		while (spent.len() as u64) < k {
+			let c = cands[rng.below(cands.len() as u64) as usize];
+			if !spent.contains(&c) {
+				spent.push(c);
+			}
+		}
+		spent.sort_unstable();
+		st.balanced_blocks += 1;
+		self.apply_block(out, st, rng, k, spent);
+	}
+
 	fn restart(&mut self, out: &mut Out, st: &mut XStats, rng: &mut Rng) {
 		self.txhs = None; // drop: closes the backend files
 		self.txhs = Some(xerr(
@@ -1224,9 +1425,41 @@ fn ext(out: &mut Out, rng: &mut Rng, thorough: bool) {
 		let base_blocks = x.recs.len();
 		let mut since_rewind = 0u64;
 		for _ in 0..steps {
-			let kind = rng.below(20);
+			let kind = rng.below(24);
 			let avail = x.recs.len().saturating_sub(1); // never rewind below the first block
-			if kind < 11 || avail == 0 {
+			if kind >= 20 && avail >= 1 {
+				// read-only rewind, discarded; often over a range of balanced blocks only
+				let mut j = 0usize;
+				if rng.chance(2, 3) {
+					for _ in 0..rng.range(1, 3) {
+						let before = x.recs.len();
+						x.balanced_block(out, &mut st, rng);
+						if x.recs.len() > before {
+							j += 1;
+						}
+					}
+				}
+				let avail = x.recs.len() - 1;
+				let depth = if j > 0 && rng.chance(1, 2) { j } else { rng.range(1, (avail as u64).min(4)) as usize };
+				if !x.readonly_rewind(out, &mut st, rng, depth) {
+					break;
+				}
+				match rng.below(3) {
+					0 => {
+						// the next committed block must start from a clean backend
+						let c = x.unspent.clone();
+						let spent = pick_spends_ext(rng, &c, x.n, &mut st);
+						let k = rng.range(1, 6);
+						x.apply_block(out, &mut st, rng, k, spent);
+						st.ro_then_block += 1;
+					}
+					1 => {
+						x.restart(out, &mut st, rng);
+						st.ro_then_restart += 1;
+					}
+					_ => {}
+				}
+			} else if kind < 11 || avail == 0 {
 				let to_boundary = NBITS - x.n % NBITS;
 				let k = match rng.below(8) {
 					0 => to_boundary,
@@ -1285,6 +1518,10 @@ fn ext(out: &mut Out, rng: &mut Rng, thorough: bool) {
 	out.raw(&format!(
 		"#STAT ext fork blocks processed and discarded inside one extending() call (force_rollback or late error)={} of which spending in an older chunk than the last={}",
 		st.discarded, st.discarded_old_chunk
+	));
+	out.raw(&format!(
+		"#STAT ext read-only rewinds (extending_readonly + Extension::rewind, discarded)={} of which leaf-set cardinality equal before and after the rewind={} shrinking across a chunk boundary={} followed by a committed block={} followed by a restart={}; balanced blocks (k spends, k outputs)={}",
+		st.ro_rewinds, st.ro_same_card, st.ro_cross, st.ro_then_block, st.ro_then_restart, st.balanced_blocks
 	));
 	out.raw(&format!("#STAT ext spend patterns {:?}", st.pat));
 	out.raw(&format!(
